@@ -14,7 +14,10 @@ package zi
 // "time.Time.Round(g) leaves G unchanged". gridRem uses it to evaluate (G + R) srem d for d | g
 // without a division on G.
 
-import "math/big"
+import (
+	"fmt"
+	"math/big"
+)
 
 type fact struct {
 	hasRange bool
@@ -134,6 +137,17 @@ func rangeCmp(op string, a, b *Term) *Term {
 	}
 	if dlo.Sign() >= 0 {
 		return tFalse
+	}
+	// Undecided, but a, b and a-b are exact integers: a < b  <=>  (a-b) < 0. The difference drops
+	// the atoms the two sides share (typically res·m of a grid time), which spares the solver a
+	// 64-bit multiplication by 10^9 on both sides of the comparison.
+	dl := linCombine(linOf(a), 1, linOf(b), ^uint64(0))
+	if len(dl.atoms) < len(linOf(a).atoms)+len(linOf(b).atoms) {
+		if _, _, ok := linInterval(dl); ok {
+			dt := fromLin(dl)
+			zero := bvConst(64, 0)
+			return mkOp("Bool", 0, "bvslt", 0, fmt.Sprintf("(bvslt %s %s)", dt, zero), dt, zero)
+		}
 	}
 	return nil
 }
